@@ -149,12 +149,20 @@ func (m refCModel) find(key string) int {
 	return -1
 }
 
+// vcMaxObjs: maximum number of objects in a generated state (param CNT).
+func vcMaxObjs() int {
+	if n := verifParam("CNT"); n > 0 {
+		return n
+	}
+	return 2
+}
+
 // vcState builds an arbitrary valid pre-state and its model.
 func vcState() (*bucket, refCModel) {
 	n := verifParam("PATH")
 	var m refCModel
 	objs := make(map[string]*internal.ImmutableObject)
-	cnt := verifNondetChoice(3)
+	cnt := verifNondetChoice(vcMaxObjs() + 1)
 	for i := 0; i < cnt; i++ {
 		p := vcShapePath(n)
 		var d string
